@@ -321,8 +321,11 @@ impl Field for SideFields {
 fn run_fields(prop: &'static str, spec: &RunSpec, f: Arc<dyn Field>, nfields: usize) {
     let n = spec.programs.len();
     let finals: Arc<Mutex<Vec<(usize, u64)>>> = Arc::new(Mutex::new(Vec::new()));
-    spawn_field_threads(prop, spec, f.clone(), nfields, n.max(1), finals.clone(), (0..nfields).collect());
+    // four more regions right behind the single-writer ones are shared counters
+    let shared = Arc::new(Shared { fields: (nfields..nfields + 4).collect(), sums: (0..4).map(|_| std::sync::atomic::AtomicU64::new(0)).collect() });
+    spawn_field_threads(prop, spec, f.clone(), nfields, n.max(1), finals.clone(), (0..nfields + 4).collect(), shared.clone());
     join_all(n);
+    check_shared(prop, &f, &shared);
     let g = finals.lock().unwrap();
     for (i, want) in g.iter() {
         let got = f.load(*i);
@@ -507,6 +510,7 @@ fn header(spec: RunSpec) -> ! {
     // Build one combined program set per class and run them all concurrently.
     let done_target = n;
     let finals: Arc<Mutex<Vec<(usize, u64)>>> = Arc::new(Mutex::new(Vec::new()));
+    let mut shared_groups: Vec<(Arc<dyn Field>, Arc<Shared>)> = Vec::new();
     for (map, threads, wdt) in handles.iter() {
         if threads.is_empty() {
             continue;
@@ -518,12 +522,17 @@ fn header(spec: RunSpec) -> ! {
         };
         let k = threads.len();
         let nfields = map.len();
-        // run_fields joins on DONE == programs.len(); use a private variant instead
-        spawn_field_threads("C23", &sub, f, nfields, k, finals.clone(), map.clone());
+        let sh_fields: Vec<usize> = if nfields >= 3 { vec![nfields - 1] } else { vec![] };
+        let shared = Arc::new(Shared { sums: sh_fields.iter().map(|_| std::sync::atomic::AtomicU64::new(0)).collect(), fields: sh_fields });
+        shared_groups.push((f.clone(), shared.clone()));
+        spawn_field_threads("C23", &sub, f, nfields, k, finals.clone(), map.clone(), shared);
     }
     let classes_with_threads: usize = handles.iter().filter(|h| !h.1.is_empty()).map(|h| h.1.len()).sum();
     let _ = done_target;
     simrt::block_until("all header threads finished", move || DONE.load(Ordering::SeqCst) == classes_with_threads);
+    for (f, sh) in shared_groups.iter() {
+        check_shared("C23", f, sh);
+    }
     // final values and isolation of everything else
     let g = finals.lock().unwrap();
     let mut covered = vec![false; LEN * 8];
@@ -558,22 +567,59 @@ fn header(spec: RunSpec) -> ! {
     world::finish_ok()
 }
 
-fn spawn_field_threads(prop: &'static str, spec: &RunSpec, f: Arc<dyn Field>, nfields: usize, nthreads: usize, finals: Arc<Mutex<Vec<(usize, u64)>>>, map: Vec<usize>) {
+/// Fields listed in `shared` have no owner: every thread may `fetch_add` / `fetch_sub` them (ops 11,
+/// 12); their final value must be the sum of all operands (no lost update).
+struct Shared {
+    fields: Vec<usize>,
+    sums: Vec<std::sync::atomic::AtomicU64>,
+}
+
+fn check_shared(prop: &'static str, f: &Arc<dyn Field>, sh: &Shared) {
+    let mask = width_mask(f.bits());
+    for (k, i) in sh.fields.iter().enumerate() {
+        let want = sh.sums[k].load(Ordering::SeqCst) & mask;
+        let got = f.load(*i);
+        if got != want {
+            violation(
+                prop,
+                "lost-update",
+                format!("the {} was only ever changed by fetch_add / fetch_sub from several threads; the operands sum to {:#x} but it holds {:#x}", f.describe(*i), want, got),
+            );
+        }
+    }
+}
+
+fn spawn_field_threads(prop: &'static str, spec: &RunSpec, f: Arc<dyn Field>, nfields: usize, nthreads: usize, finals: Arc<Mutex<Vec<(usize, u64)>>>, map: Vec<usize>, shared: Arc<Shared>) {
     for (t, p) in spec.programs.iter().enumerate() {
         let ops = comp_ops(p);
         let f = f.clone();
         let finals = finals.clone();
         let map = map.clone();
+        let shared = shared.clone();
         simrt::spawn(&format!("accessor{}w{}", t, f.bits()), move || {
-            let mine: Vec<usize> = (0..nfields).filter(|i| i % nthreads == t).collect();
+            let mine: Vec<usize> = (0..nfields).filter(|i| i % nthreads == t && !shared.fields.contains(i)).collect();
             let mut model: BTreeMap<usize, u64> = BTreeMap::new();
-            if mine.is_empty() {
-                DONE.fetch_add(1, Ordering::SeqCst);
-                return;
-            }
             let mask = width_mask(f.bits());
             for (k, a, b, _c) in ops {
+                if mine.is_empty() && k != 11 && k != 12 {
+                    continue;
+                }
                 op_boundary();
+                if k == 11 || k == 12 {
+                    if !shared.fields.is_empty() {
+                        let pos = a as usize % shared.fields.len();
+                        let v = b & mask;
+                        if k == 11 {
+                            f.fetch_add(shared.fields[pos], v);
+                            shared.sums[pos].fetch_add(v, Ordering::SeqCst);
+                        } else {
+                            f.fetch_sub(shared.fields[pos], v);
+                            shared.sums[pos].fetch_sub(v, Ordering::SeqCst);
+                        }
+                        with_world(|w| w.count("shared_field_ops"));
+                    }
+                    continue;
+                }
                 let i = mine[a as usize % mine.len()];
                 let cur = *model.get(&i).unwrap_or(&0);
                 let v = b & mask;
